@@ -1,4 +1,33 @@
+// C++-level pieces of the support runtime (compiled to IR with the real libstdc++ headers)
 #include <stdexcept>
+#include <new>
+#include <system_error>
+#include <string>
 namespace std {
 void __throw_logic_error(const char* s) { throw logic_error(s); }
+void __throw_out_of_range(const char* s) { throw out_of_range(s); }
+void __throw_length_error(const char* s) { throw length_error(s); }
+void __throw_invalid_argument(const char* s) { throw invalid_argument(s); }
+void __throw_out_of_range_fmt(const char* s, ...) { throw out_of_range(s); }
+void __throw_bad_alloc() { throw bad_alloc(); }
+void __throw_bad_array_new_length() { throw bad_array_new_length(); }
+}
+// std::system_category(): a category object with the documented interface; message() gives a fixed text (strerror is not modelled)
+namespace {
+struct vf_system_category final : std::error_category {
+    const char* name() const noexcept override { return "system"; }
+    std::string message(int) const override { return "system error"; }
+};
+static vf_system_category vf_the_system_category;
+}
+namespace std { inline namespace _V2 {
+const error_category& system_category() noexcept { return vf_the_system_category; }
+const error_category& generic_category() noexcept { return vf_the_system_category; }
+error_category::~error_category() = default;
+error_condition error_category::default_error_condition(int i) const noexcept { return error_condition(i, *this); }
+bool error_category::equivalent(int i, const error_condition& c) const noexcept { return default_error_condition(i) == c; }
+bool error_category::equivalent(const error_code& c, int i) const noexcept { return *this == c.category() && c.value() == i; }
+} }
+namespace std {
+system_error::~system_error() noexcept = default;
 }
